@@ -9,9 +9,9 @@
 (*             opcat      ">" & cell holding the number                                 *)
 (*             cellcrit   a cell holding the text ">5"                                  *)
 EXTENDS XlCriteria, C12Grid, Json
-CONSTANTS R, Reduced
+CONSTANTS R, Reduced, Bools
 VARIABLE st
-Pool == IF Reduced THEN {NQ(0), NQ(20), NQ(28), NQ(10), TX(<<120>>), TX(<<97, 112, 112, 108, 101>>), TX(<<98, 63>>), BlankC} ELSE Cells
+Pool == IF Bools THEN BoolCells ELSE IF Reduced THEN {NQ(0), NQ(20), NQ(28), NQ(10), TX(<<120>>), TX(<<97, 112, 112, 108, 101>>), TX(<<98, 63>>), BlankC} ELSE Cells
 Spellings(crit) == IF crit.op = "EQ" THEN {"value", "valuecell", "eqlit", "cellcrit"}
                    ELSE IF crit.operand.k = "num" THEN {"oplit", "opcat", "cellcrit"} ELSE {"oplit", "cellcrit"}
 SetToSeq(S) == LET RECURSIVE F(_)
@@ -20,7 +20,7 @@ SetToSeq(S) == LET RECURSIVE F(_)
 StrSeq(S) == LET RECURSIVE F(_)
                  F(W) == IF W = {} THEN <<>> ELSE LET x == CHOOSE y \in W : TRUE IN <<x>> \o F(W \ {x})
              IN F(S)
-CritSeq == StrSeq(Crits)
+CritSeq == StrSeq(IF Bools THEN BoolCrits ELSE Crits)
 \* the fixed second pair of the two-pair formulas: column C holds 1, 2, 3, 4 and the criterion is ">1"
 CCol == [i \in 1..R |-> NQ(4 * i)]
 C2 == [op |-> "GT", operand |-> NQ(4)]
@@ -31,5 +31,6 @@ Next == /\ st.ph = "shard"
              /\ st' = [ph |-> "case", ci |-> st.ci, col |-> col]
              /\ PrintT(ToJson([ci |-> st.ci, crit |-> crit, col |-> col, sel |-> SetToSeq(sel),
                                sel12 |-> SetToSeq(Sel(<<col, CCol>>, <<crit, C2>>, R)),
-                               g |-> [sp \in Spellings(crit) |-> StrSeq(Guards(col, crit, sp))]]))
+                               g |-> [sp \in Spellings(crit) |-> StrSeq(Guards(col, crit, sp))],
+                               gsum |-> [sp \in Spellings(crit) |-> StrSeq(GuardsSum(col, crit, sp))]]))
 =============================================================================
